@@ -284,6 +284,9 @@ def pool_builder(spec):
                 X = rng.standard_normal((4, 5))
                 objs.append(TT(X[:, :-1].reshape([2, 2, 4, 1, 1, 1]))); tags.append({'snap-x'})
                 objs.append(TT(X[:, 1:].reshape([2, 2, 4, 1, 1, 1]))); tags.append({'snap-y'})
+            elif o.get('kind') == 'samecore':
+                c_ = rng.standard_normal((1, o['rows'][0], o.get('cols', [1])[0], 1))
+                objs.append(TT([c_] * len(o['rows']))); tags.append(set())      # one array object is every core
             elif o.get('kind') == 'qstate':
                 t = _tt(rng, [2, 2, 2], [1, 1, 1], [1, 2, 2, 1], True)
                 t.ortho_right(); t = (1.0 / t.norm()) * t
@@ -308,6 +311,8 @@ def pool_builder(spec):
 POOLS_SPEC = [
     {'name': 'rank1-vectors', 'objs': [{'rows': [2, 2, 2], 'ranks': [1, 1, 1, 1]}, {'rows': [2, 2, 2], 'ranks': [1, 1, 1, 1]}]},
     {'name': 'rank-caps', 'env': 'caps', 'objs': [{'rows': [2, 2, 2], 'ranks': [1, 2, 2, 1]}, {'rows': [2, 2, 2], 'ranks': [1, 1, 1, 1]}]},
+    {'name': 'same-core-object', 'objs': [{'kind': 'samecore', 'rows': [2, 2, 2]}, {'kind': 'samecore', 'rows': [2, 2], 'cols': [2, 2]},
+                                          {'rows': [2, 2, 2], 'ranks': [1, 1, 1, 1]}]},
     {'name': 'mixed-ranks', 'objs': [{'rows': [2, 2, 2], 'ranks': [1, 1, 2, 1]}, {'rows': [2, 2, 2], 'ranks': [1, 2, 1, 1]}]},
     {'name': 'size1-modes', 'objs': [{'rows': [1, 2, 2], 'ranks': [1, 2, 1, 1]}, {'rows': [2, 2, 1], 'ranks': [1, 1, 2, 1]},
                                      {'rows': [2, 1, 2], 'ranks': [1, 1, 1, 1]}]},
